@@ -5,6 +5,7 @@ mod c11;
 mod c12;
 mod c13;
 mod gate;
+mod minv;
 
 fn main() {
     let args = Args::parse();
